@@ -120,4 +120,22 @@ def has_nd_zero(d):
 @known("numpy_nd_zero_inner_dim")
 def _(case, vio):
     kind, op, parts = _parts(vio)
-    return any(has_nd_zero(d) for d in descs_of(case)) and (op.startswith(("reduce", "sort", "argsort")))
+    return any(has_nd_zero(d) for d in descs_of(case))
+
+
+@crash_exclusion("numpy_nd_zero_inner_dim")
+def _(spec, desc):
+    return has_nd_zero(desc) and spec["op"] not in ("tojson", "validity", "type", "form", "purelist", "deep_copy")
+
+
+@known("num_axis0_recordarray")
+def _(case, vio):
+    kind, op, parts = _parts(vio)
+    return op == "num" and kind in ("value", "resultkind") and any(d["class"] == "RecordArray" for d in descs_of(case)) and case["spec"].get("axis") is not None
+
+
+@known("negative_axis_through_records")
+def _(case, vio):
+    kind, op, parts = _parts(vio)
+    ax = case["spec"].get("axis")
+    return ax is not None and ax < 0 and bool(parts & {"rec", "union"})
